@@ -151,6 +151,7 @@ def linetable_stage(tier, rep):
     l0 = [d for d in gen.docs("L0", tier, rep) if "\r" not in d and "\x00" not in d]
     l1 = [d for d in gen.docs("L1", tier, rep, cfg="DocGen_L1_small.cfg" if q else None) if "\r" not in d and "\x00" not in d]
     srcs = gen.sample(l0, 6000 if q else 60000, C.SEED + 7, keep_short=1500) + gen.sample(l1, 4000 if q else 60000, C.SEED + 8)
+    srcs += [t for t in gen.twins(srcs[:5000], C.SEED, per_doc=1) if "\r" not in t and "\x00" not in t]
     srcs += [d + "\n" for d in srcs[:1500]] + [d + "  " for d in srcs[:700]] + [d + "\n\t " for d in srcs[:700]]
     traces = C.pmap(linetable_record, srcs, chunk=300)
     verdicts, st = C.validate_traces("LineTableTrace", traces, shard=1500, heap="8g")
